@@ -406,6 +406,23 @@ def run_check(pid, tier, report_as=None):
         op = os.path.join(work, "oracle.json")
         if rc != 0 or not os.path.exists(op):
             broken.append({"kind": "harness", "what": "harness exited %d" % rc, "detail": hout[-3000:]})
+            # findings flushed before the process died (an implementation that exhausts memory or
+            # never returns gets the harness killed): they are failing inputs all the same
+            pp = os.path.join(work, "oracle.partial.json")
+            if os.path.exists(pp):
+                try:
+                    with open(pp) as f:
+                        for v in json.load(f).get("violations", []):
+                            violations.append(v)
+                except Exception:
+                    pass
+            ip = os.path.join(work, "inflight.json")
+            if os.path.exists(ip) and not violations:
+                try:
+                    with open(ip) as f:
+                        violations.append({"key": pid + ":process-died", "what": "%s: the process died (exit %d) while the implementation ran on this input" % (pid, rc), "replay": json.load(f).get("replay")})
+                except Exception:
+                    pass
         else:
             with open(op) as f:
                 oracle = json.load(f)
